@@ -672,6 +672,10 @@ class Fn:
                             cb = self.cx._closure_by_mangled(c)
                             if cb is not None:
                                 self.closure_sites.append((cb.id, s8))
+                        hb0 = self.cx.f.crate_fn_for_call(fn)
+                        if hb0 is not None and hb0.id != b.id:
+                            # a crate function called from a writer runs in the writer's state (used for raw moves in helpers)
+                            self.closure_sites.append((hb0.id, s8))
                     if k == "drop" and s8[0] in ("Z", "V") and re.match(r"^[A-Z]\w*/#\d+$", t["ty"]) and any(e["k"] == "deref" for e in t["p"]["proj"]):
                         # `*slot = e` / drop_in_place through a pointer while the buffer is hidden: the slot holds a bitwise
                         # duplicate (or nothing), dropping it drops a live element a second time
@@ -929,12 +933,22 @@ def r_shape(f):
             clo_states = set()
             for fnr in done.get(root.id, []) or [analyse_fn(cx, root)]:
                 clo_states |= {st for cid, st in fnr.closure_sites if cid == b.id}
+        if clo_states is None and b.kind != "Closure" and not b.impl_self and not is_shape_writer(cx, b):
+            # a free helper function (no receiver, hence no struct invariant): it runs in the state of the writers that call it
+            hs = set()
+            for wb in f.fn_bodies:
+                if wb.id != b.id and is_shape_writer(cx, wb, direct=True):
+                    for fnr in done.get(wb.id, []) or [analyse_fn(cx, wb)]:
+                        hs |= {st for cid, st in fnr.closure_sites if cid == b.id}
+            if hs:
+                clo_states = hs
+                root = b
         for bi, t, fn in raw:
             n_raw += 1
             sts = states_at.get((t["span"]["lo"], t["span"]["col"], fn["path"]))
             if sts is None and clo_states:
                 sts = clo_states
-                src = "states at the call sites in %s that receive this closure" % root.ident
+                src = ("states at the call sites in %s that receive this closure" % root.ident) if b.kind == "Closure" else "states at the call sites of this helper in the shape writers"
             elif sts is None:
                 # not a writer itself: use the invariant of the type it is a method of
                 ap = _adt_path(root.impl_self) if root.impl_self else None
@@ -942,7 +956,41 @@ def r_shape(f):
                 src = "struct invariant of %s established at its construction sites" % (ap.split("::")[-1] if ap else "?")
             else:
                 src = "dataflow"
+            if sts and all(tuple(_strip_final(s_)) == ("O", "O", "O") for s_ in sts) and root.impl_self:
+                # untouched since entry, in a method of a type that is only built while the buffer is hidden (the drain): the
+                # entry state is that type's struct invariant
+                ap0 = _adt_path(root.impl_self)
+                inv0 = {_strip_final(s_) for s_ in adt_entry.get(ap0, set())} if ap0 else set()
+                if inv0:
+                    sts = inv0
+                    src = "struct invariant of %s (state untouched since entry)" % ap0.split("::")[-1]
             hidden = bool(sts) and all(_strip_final(s)[0] in ("Z", "V") for s in sts)
+            if not hidden and is_shape_writer(cx, b, direct=True) and not b.blocks[bi]["cleanup"]:
+                # moved while still visible, but hidden straight afterwards: accepted when every path from the move reaches a
+                # `set_len` on the buffer before any point where control can leave (may-unwind call / drop, return)
+                fnxh = Fn(cx, b)
+                seen_h, work_h, okh = set(), [t.get("target")], True
+                while work_h and okh:
+                    x = work_h.pop()
+                    if x is None:
+                        okh = False; break
+                    if x in seen_h:
+                        continue
+                    seen_h.add(x)
+                    tt = b.blocks[x]["term"]
+                    if tt is None or tt["k"] in ("return", "resume", "unreachable"):
+                        okh = tt is not None and tt["k"] == "unreachable"
+                        if not okh:
+                            break
+                        continue
+                    if tt["k"] == "call" and fnxh._is_write_term(tt, direct=True) and (tt["func"].get("fn") or {}).get("name") == "set_len":
+                        continue
+                    if tt["k"] in ("call", "drop", "assert") and cx.term_may_unwind(tt):
+                        okh = False; break
+                    work_h.extend(b.succs(x))
+                if okh and seen_h:
+                    hidden = True
+                    src = "moved first, hidden by set_len before any exit point; " + src
             RH.inst(b.ident, "%s on elements happens while the Vec length is lowered (%s: %s)" % (fn["path"].split("::")[-1], src, sorted(sts)), hidden)
             if not hidden:
                 RH.fail(b.ident, "exposed:%s" % fn["path"].split("::")[-1], "%s moves elements bitwise with %s while the buffer is still visible to Vec (len state %s): a panic or early return here double-drops or exposes a moved-out element" % (b.ident, fn["path"], sorted(sts)), b.where(t["span"]))
@@ -1029,6 +1077,71 @@ def r_shape(f):
         RR.inst(db.ident, "every normal path through the destructor performs the restore (%d shape-writing blocks)" % len(wblocks), bool(wblocks) and not skipping)
         if wblocks and skipping:
             RR.fail(db.ident, "restore-skipped", "%s can return without restoring the array (an early return bypasses the compaction / the drop of the remaining elements): the removed line's unconsumed elements are never dropped and the array stays empty" % db.ident, db.where())
+    # ... and the remaining elements of the drain are dropped before its cells are overwritten, under cover of the restorer:
+    #  (a) every block move of the compaction is dominated, on the normal path, by an exhaustion of the drain's cursor - a
+    #      consuming call (for_each / fold ..) in the function that moves, or the `None` exit of a `next()` loop dominating every
+    #      normal drop of the restorer guard (else the unconsumed elements are overwritten without being dropped: a leak in a
+    #      history where nothing panics);
+    #  (b) a restorer whose own drop still steps the cursor (its unwind duty: finish dropping after a panic) runs that caller
+    #      code with nothing above it; on the normal path it may therefore only be entered with the cursor exhausted.
+    for ap, db in cx.drop_of.items():
+        if not is_shape_writer(cx, db):
+            continue
+        if not any(returns_leakable(cx, b) == ap for b in f.fn_bodies if b.kind != "Closure"):
+            continue
+        tname = ap.split("::")[-1]
+
+        def on_drain(fn):
+            txt = " ".join([fn.get("self_ty") or "", fn.get("resolved") or "", fn.get("path") or ""] + list(fn.get("args") or []))
+            return re.search(r"\b%s<" % re.escape(tname), txt) is not None
+        STEP1 = ("next", "next_back")
+        CONSUME = ("for_each", "fold", "rfold", "count", "last", "try_fold", "try_for_each", "for_each_mut")
+        movers = []
+        for gb in f.fn_bodies:
+            if gb.name == "drop" and gb.kind != "Closure" and (gb.id == db.id or db.id in gb.id or db.id.strip("<>") in (gb.impl_self or "")):
+                mv = [bi for bi, t, fn in gb.calls() if fn and fn["path"] in RAW_MOVES and fn["path"].split("::")[-1] in ("copy", "copy_nonoverlapping")]
+                if mv:
+                    movers.append((gb, mv))
+
+        def none_exits(bb_):
+            """blocks entered through the `None` edge of a next()/next_back() on the drain"""
+            out = []
+            dxx = Dfx(bb_)
+            for bi, bl in enumerate(bb_.blocks):
+                tt = bl["term"]
+                if bl["cleanup"] or not tt or tt["k"] != "switch":
+                    continue
+                e = strip(dxx.expr(tt["discr"]))
+                if e[0] == "discr":
+                    src = strip(e[1])
+                    if src[0] == "call" and src[2] in STEP1 and len(src) > 4 and isinstance(src[4], dict) and on_drain(src[4]):
+                        vals_ = [str(val) for val, tgt in tt["targets"]]
+                        for val, tgt in tt["targets"]:
+                            if str(val) == "0":
+                                out.append(tgt)
+                        if vals_ == ["1"]:
+                            out.append(tt["otherwise"])     # Option has two variants: not Some is None
+            return out
+        for gb, mv in movers:
+            domg = gb.dominators()
+            cons = [bi for bi, t, fn in gb.calls() if fn and fn["name"] in CONSUME and on_drain(fn)] + none_exits(gb)
+            steps_cursor = any(fn and fn["name"] in CONSUME + STEP1 and on_drain(fn) for bi, t, fn in gb.calls())
+            inner_ok = any(all(c in domg.get(m, set()) for m in mv) for c in cons)
+            outer_ok = None
+            if gb.id != db.id:
+                gname = (gb.self_head or "").split("::")[-1]
+                drops = [bi for bi, bl in enumerate(db.blocks) if not bl["cleanup"] and bl["term"] and bl["term"]["k"] == "drop" and re.search(r"\b%s<" % re.escape(gname), bl["term"].get("ty", "")) and bi in db.reachable(0)]
+                ne = none_exits(db)
+                domd = db.dominators()
+                outer_ok = bool(drops) and all(any(n_ in domd.get(d_, set()) for n_ in ne) for d_ in drops)
+            ok_a = inner_ok or bool(outer_ok)
+            RR.inst(gb.ident, "(a) the compaction's block moves are preceded by an exhaustion of the drain's cursor on the normal path", ok_a)
+            if not ok_a:
+                RR.fail(gb.ident, "moves-before-exhaustion", "%s overwrites the removed line's cells (block moves of the compaction) without first dropping the elements the caller did not consume: in a history where nothing panics and nothing is leaked they are never dropped" % gb.ident, gb.where())
+            if gb.id != db.id and steps_cursor:
+                RR.inst(gb.ident, "(b) the restorer, which itself drops remaining elements with nothing above it, is entered on the normal path only after the cursor is exhausted", bool(outer_ok))
+                if not outer_ok:
+                    RR.fail(db.ident, "restorer-entered-unexhausted", "%s hands the restorer %s a cursor that may still hold elements on the normal path: the restorer drops them (caller code) with no guard above it, so a panicking element destructor skips the compaction and leaves the array empty" % (db.ident, gb.ident), db.where())
     # R-DRAINSTEP: the iterator impls of a hand-made drain only single-step the embedded cursor and read out exactly
     # the element stepped over (anything that jumps - nth, nth_back, skip, advance_by, last - forgets elements)
     RS = Result("R-DRAINSTEP")
@@ -1070,8 +1183,15 @@ def r_shape(f):
                     want_dir = {"next": "next", "nth": "next", "next_back": "next_back", "nth_back": "next_back", "last": "next_back", "rfold": "next_back", "fold": "next"}.get(b.name)
                     if want_dir and fn["name"] != want_dir:
                         bad.append(("direction:" + fn["name"], t["span"]))
-                elif fn["name"] in ("size_hint", "len", "is_empty"):
+                elif fn["name"] in ("size_hint", "len", "is_empty", "by_ref"):
                     pass
+                elif fn["name"] in ("fold", "rfold", "for_each") and b.name in ("fold", "rfold", "for_each") and \
+                        any(fn2 and fn2["path"] in ("core::ptr::read", "core::ptr::const_ptr::<impl *const T>::read", "core::ptr::mut_ptr::<impl *mut T>::read") for c in b.closures() for _, _, fn2 in c.calls()):
+                    # a whole traversal of the remaining elements whose closure reads each one out: nothing is stepped over unread
+                    steps += 1
+                    want_t = {"fold": ("fold", "for_each"), "for_each": ("fold", "for_each"), "rfold": ("rfold",)}[b.name]
+                    if fn["name"] not in want_t:
+                        bad.append(("direction:" + fn["name"], t["span"]))
                 elif any(ns is not None and (ns == bi or ns in dom_.get(bi, set())) for ns in nodrop_succ):
                     steps += 1          # a jump taken only when T has no drop glue; its result must still be read out
                 else:
